@@ -262,6 +262,7 @@ fn check_points(
 ) -> usize {
     let mut bad = 0;
     let has_empty_region = rules.iter().any(|r| r.boxes.is_empty());
+    let has_axis_twice = rules.iter().any(|r| r.boxes.iter().any(|b| (0..b.len()).any(|i| (0..i).any(|j| b[i].0 == b[j].0))));
     for p in pts {
         t.points += 1;
         let act: Vec<usize> = (0..rules.len()).filter(|i| rule_active(p, &rules[*i], u)).collect();
@@ -291,6 +292,8 @@ fn check_points(
             "later-rule-wins-conflicting-subs"
         } else if inter == Interf::Chain {
             "chained-subs-not-applied-in-rule-order"
+        } else if has_axis_twice {
+            "two-conditions-on-one-axis-only-last-kept"
         } else if has_empty_region {
             "rule-without-condition-set-erases-earlier-rules"
         } else if touching(p, rules, u) {
@@ -592,7 +595,13 @@ fn gen_case_e(rng: &mut Rng, nrules: usize, messy: bool) -> CaseE {
                                 mx = Some(x + 64);
                             }
                         }
-                        cs.push((a, mn, mx));
+                        if mn.is_some() && mx.is_some() && rng.chance(1, 25) {
+                            // the same range written as two conditions on the axis
+                            cs.push((a, mn, None));
+                            cs.push((a, None, mx));
+                        } else {
+                            cs.push((a, mn, mx));
+                        }
                     }
                     cs
                 })
@@ -630,10 +639,12 @@ impl CaseE {
                     .condsets
                     .iter()
                     .map(|cs| {
-                        // IR ConditionSet sorts its conditions; NBox is keyed by tag anyway
-                        let mut b: Vec<Cond> = cs.iter().map(|(a, mn, mx)| (self.axes[*a].tag, mn.map(|v| self.axes[*a].norm(v)), mx.map(|v| self.axes[*a].norm(v)))).collect();
-                        b.sort_by_key(|c| c.0);
-                        b
+                        // the IR ConditionSet sorts its conditions by (axis tag, min, max), None first; the
+                        // back end then inserts them into an NBox one by one (a later one for the same axis
+                        // replaces the earlier)
+                        let mut cs: Vec<(usize, Option<i64>, Option<i64>)> = cs.clone();
+                        cs.sort_by_key(|(a, mn, mx)| (self.axes[*a].tag, *mn, *mx));
+                        cs.iter().map(|(a, mn, mx)| (self.axes[*a].tag, mn.map(|v| self.axes[*a].norm(v)), mx.map(|v| self.axes[*a].norm(v)))).collect()
                     })
                     .collect(),
                 subs: r.subs.clone(),
@@ -904,6 +915,10 @@ fn main() {
     fixed.push(("font-chained-subs", one_axis(vec![
         RuleD { condsets: vec![vec![(0, Some(512), None)]], subs: vec![(2, 4)] },
         RuleD { condsets: vec![vec![(0, Some(256), None)]], subs: vec![(0, 2)] },
+    ])));
+    // a range written as two conditions: wght >= 256 and wght <= 768
+    fixed.push(("font-two-conditions-on-one-axis", one_axis(vec![
+        RuleD { condsets: vec![vec![(0, Some(256), None), (0, None, Some(768))]], subs: vec![(0, 1)] },
     ])));
     for (i, (kind, c)) in fixed.iter().enumerate() {
         stage_e_case(&mut rng, &mut t, &mut id, 9000 + i, kind, c, 800);
